@@ -2,9 +2,9 @@
 """Regenerates /verif/MANIFEST.json (kept in one place so that it stays consistent)."""
 import json, subprocess, sys
 
-hook_commits = ["b235335"]
+hook_commits = ["b235335", "25d625e"]
 
-T_CONC = "deterministic simulation: real threads under a seeded token scheduler (uniform/PCT/burst/stall schedules, spurious weak-CAS failures) at every atomic operation of the real allocator; invariants checked at every call return and over the recorded history"
+T_CONC = "deterministic simulation: real threads under a seeded token scheduler (uniform/PCT/burst/after-write/stall schedules, spurious weak-CAS failures; for a sample of small cases every depth-1 PCT schedule is enumerated: each priority order of the threads x each step at which the running thread is demoted) at every atomic operation of the real allocator; invariants checked at every call return and over the recorded history"
 T_SEQ = "deterministic simulation, single simulated caller: long seeded call histories on the real allocator judged call by call by an executable reference model (frame ownership only)"
 
 checks = {
@@ -12,8 +12,8 @@ checks = {
     text="Seeded search over interleavings (2-3 threads, <=6 calls each, 1-4 trees, families K1-K6) plus sequential histories; every successful allocation is checked at its return instant against the set of blocks held at that instant. Finds the narrow windows (multi-row CAS rollback, multi-huge CAS) within seconds; a clean batch is evidence, not proof.",
     note="sequentially consistent executions only; <=3 threads; sampling, not enumeration of all interleavings", ref="DESIGN.md §4 C01, §2.2-2.5"),
  "C02": dict(cat="exploration", tech=T_SEQ + "; full per-frame state comparison after every call",
-    text="Seeded random sequential histories (20-120 calls) over 1-4 trees incl. partial last trees, simple/movable/zeroed classings, free-all and allocate-all starts; success/failure of every free and targeted allocation is predicted exactly by the model and the status of every frame is compared after every call that changed anything (and periodically otherwise).",
-    note="bounded-exhaustive enumeration of an operation alphabet is not attempted (that would be model checking); default geometry in the quick tier", ref="DESIGN.md §4 C02"),
+    text="Seeded random sequential histories (20-120 calls) over 1-4 trees (one run in twelve: up to 24 trees) incl. partial last trees, simple/movable/zeroed classings, free-all and allocate-all starts; success/failure of every free and targeted allocation is predicted exactly by the model and the status of every frame is compared after every call that changed anything (and periodically otherwise).",
+    note="bounded-exhaustive enumeration of an operation alphabet is not attempted (that would be model checking); the quick tier runs the default geometry and a short batch of the 8-huge-frames-per-tree build, the thorough tier all five geometries", ref="DESIGN.md §4 C02"),
  "C03": dict(cat="exploration", tech=T_CONC + "; oracle: no panic in any thread, put of a held block returns Ok",
     text="Same interleaving search as C01 with stall/PCT-biased schedules and emphasis on threads freeing different parts of one split huge frame; every call runs under catch_unwind, panics are identified by message+file. One genuine defect is a recorded known finding (partial_put_huge gives up after 4 spins).",
     note="known finding C03/panic:lower.rs:Exceeding_retries ends ~25% of the K3 runs early", ref="DESIGN.md §4 C03, §6"),
@@ -25,7 +25,7 @@ checks = {
     note="strict persistency (prefix of the write order is durable); relaxed cross-cache-line persistence not modelled", ref="DESIGN.md §4 C05"),
  "C06": dict(cat="exploration", tech="deterministic simulation harness used as a configuration sweep (no schedule dimension): init + exhaustion / free-everything driven through the real allocator and judged by the model",
     text="Quick: boundary frame counts around multiples of 64, HUGE_FRAMES and TREE_FRAMES (+-3) plus seeded values; thorough: every frame count from 1 to 4 trees in both init modes. Exactly the managed frames are allocatable / freeable once, all views equal the model, nothing at or beyond the managed count is reported or returned.",
-    note="single-thread; default geometry in the quick tier", ref="DESIGN.md §4 C06"),
+    note="single-thread; the quick tier runs the default geometry and a short batch of the 8-huge-frames-per-tree build, the thorough tier all five geometries", ref="DESIGN.md §4 C06"),
  "C07": dict(cat="exploration", tech=T_SEQ + " with a warm-restart fault: at a seeded quiescent point the three metadata buffers are byte-copied and a second allocator is built with Init::None; both are then driven in lock-step",
     text="Lock-step equality of every call result and of stats / tree_stats (all fields) / sampled stats_at between the original and the allocator rebuilt from its metadata, over seeded continuations including drains and tree changes.",
     note="one handoff per history at a random point", ref="DESIGN.md §4 C07"),
@@ -50,7 +50,7 @@ checks = {
  "C14": dict(cat="exploration", tech=T_SEQ + "; oracle: two sum identities over tree_stats().classes after every call",
     text="Sum over classes of free+alloc equals trees*TREE_FRAMES and the per-class free counts sum to the fast total, with reservations present, after drains, with offline trees and class changes.",
     note="", ref="DESIGN.md §4 C14"),
- "C15": dict(cat="exploration", tech=T_SEQ + " with offline/online/class changes (by id and by matcher) judged by observation of the tree array; plus concurrent K4 runs with offline/online pairs",
+ "C15": dict(cat="exploration", tech=T_SEQ + " with offline/online/class changes (by id and by matcher) judged by observation of the tree array; plus concurrent runs with offline/online pairs (K4 reservation churn; K9: slots holding reservations of entirely free trees while other threads drain, take those trees offline and allocate through the slots)",
     text="Offline of an unreserved entirely free tree must succeed; no allocation returns a frame of an offline tree; the fast count excludes it; online restores the counter and the requested class; a change touches exactly one matching unreserved tree or nothing.",
     note="offline operations are only generated for entirely free trees (the case the property defines)", ref="DESIGN.md §4 C15"),
  "C17": dict(cat="exploration", tech="deterministic simulation with cold-restart fault: NvmAlloc, ZoneAlloc and a plain LLFree driven in lock-step over mmap'ed zones at several aligned bases, then recovery from the zone alone",
